@@ -16,12 +16,20 @@ Definition C27_statement : Prop :=
   /\ (forall a b, merge a b = merge b a)
   /\ (forall a b c, merge (merge a b) c = merge a (merge b c))
   /\ (forall a, merge a a = a)
-  /\ (forall a b i, nth i (merge a b) 0%N = N.max (nth i a 0%N) (nth i b 0%N)).
+  /\ (forall a b i, nth i (merge a b) 0%N = N.max (nth i a 0%N) (nth i b 0%N))
+  (* labelled runs (a label may repeat: retries of one test): the overall Files never depend on the order *)
+  /\ (forall runs runs' f, Permutation runs runs' ->
+        lookup f (snd (aggregate_all_t runs)) = lookup f (snd (aggregate_all_t runs')))
+  (* with one coverage object per test, the per-test breakdown is order-free and holds what each test reported *)
+  /\ (forall runs runs' l, NoDup (map fst runs) -> Permutation runs runs' ->
+        tlookup l (fst (aggregate_all_t runs)) = tlookup l (fst (aggregate_all_t runs')))
+  /\ (forall runs l v, NoDup (map fst runs) -> In (l, v) runs -> tlookup l (fst (aggregate_all_t runs)) = Some v).
 
 Theorem C27_full : C27_statement.
 Proof.
   exact (conj aggregate_order_free_both (conj aggregate_idem (conj aggregate_dup (conj aggregate_best
-        (conj merge_comm (conj merge_assoc (conj merge_idem merge_nth))))))).
+        (conj merge_comm (conj merge_assoc (conj merge_idem (conj merge_nth
+        (conj files_order_free_t (conj tests_order_free tests_exact)))))))))).
 Qed.
 Print Assumptions C27_full.
 
@@ -33,3 +41,11 @@ Example C27_nonvacuous :
   /\ lookup (s "a.go") (aggregate_all [r2; r1]) = [3; 3; 2; 1]%N
   /\ lookup (s "b.go") (aggregate_all [r2; r1]) = [2; 3]%N.
 Proof. vm_compute. repeat split. Qed.
+
+Example C27_nonvacuous_tests :
+  let r1 := (s "//p:t1", [(s "a.go", [3; 2; 0])])%N in
+  let r2 := (s "//p:t2", [(s "a.go", [2; 3; 2; 1])])%N in
+  NoDup (map fst [r1; r2])
+  /\ tlookup (s "//p:t1") (fst (aggregate_all_t [r2; r1])) = Some (snd r1)
+  /\ lookup (s "a.go") (snd (aggregate_all_t [r2; r1])) = [3; 3; 2; 1]%N.
+Proof. cbv zeta. split; [|vm_compute; split; reflexivity]. repeat constructor; cbn; intuition discriminate. Qed.
